@@ -258,3 +258,72 @@ Fixpoint find_revoked (es : list entry) (serial : list N) : lookup :=
 
 (* parse the revoked list back into entries (model of the loop's x509_revoked_cert_from_der) *)
 Definition entry_layout : list slot := [([T_INT], false); ([T_UTC; T_GEN], false); ([T_SEQ], true)].
+
+(* ------------------------------------------------------------------ Extension composition (wave 2)
+   x509_ext_to_der / x509_ext_to_der_ex are two-pass encoders: a dry run adds up the sizes of
+   the parts, the SEQUENCE header is written from that sum, then the parts are emitted.  The
+   Impl models below keep the two passes apart (sizes are computed from lengths only, exactly
+   as the NULL-output calls do); the Spec is the nested TLV. *)
+
+Definition tlv_size (n : N) : N := 1 + len (len_enc n) + n.       (* asn1_type_to_der(.., NULL, &len) *)
+
+(* asn1_boolean_to_der: nothing for -1, FALSE for 0, TRUE otherwise *)
+Definition bool_tlv (critical : Z) : list N :=
+  if (critical <? 0)%Z then [] else [1; 1; if (critical =? 0)%Z then 0 else 255].
+
+(* x509_ext_to_der_ex(oid, critical, d, dlen): extnValue = OCTET STRING { SEQUENCE { d } } *)
+Definition ext_ex_size (oidtlv : list N) (critical : Z) (dlen : N) : N :=
+  let vlen := tlv_size dlen in                          (* asn1_sequence_to_der(d, dlen, NULL, &vlen) *)
+  len oidtlv + len (bool_tlv critical) + 1 + len (len_enc vlen) + tlv_size dlen.
+Definition ext_ex_emit (oidtlv : list N) (critical : Z) (d : list N) : list N :=
+  let vlen := tlv_size (len d) in
+  48 :: len_enc (ext_ex_size oidtlv critical (len d))
+     ++ oidtlv ++ bool_tlv critical ++ 4 :: len_enc vlen ++ tlv 48 d.
+
+(* x509_ext_to_der(oid, critical, val, vlen): extnValue = OCTET STRING { val } *)
+Definition ext_size (oidtlv : list N) (critical : Z) (vlen : N) : N :=
+  len oidtlv + len (bool_tlv critical) + tlv_size vlen.
+Definition ext_emit (oidtlv : list N) (critical : Z) (val : list N) : list N :=
+  48 :: len_enc (ext_size oidtlv critical (len val)) ++ oidtlv ++ bool_tlv critical ++ tlv 4 val.
+
+(* Spec *)
+Definition ext_spec (oidtlv : list N) (critical : Z) (val : list N) : list N :=
+  tlv 48 (oidtlv ++ bool_tlv critical ++ tlv 4 val).
+
+(* x509_ext_from_der: extnID, critical DEFAULT absent, extnValue; nothing after *)
+Definition ext_layout : list slot := [([6], false); ([1], true); ([4], false)].
+Definition ext_from_der (inp : list N) : option (list value * list N) :=
+  match tlv_dec inp with
+  | Some (t, c, rest) =>
+    if t =? 48 then
+      match dec_items ext_layout c with
+      | Some (vs, []) => Some (vs, rest)
+      | _ => None
+      end
+    else None
+  | None => None
+  end.
+
+(* ------------------------------------------------------------------ exact-match lookups (wave 2)
+   x509_certs_get_cert_by_issuer_and_serial_number, the RecipientInfo selection of
+   cms_recipient_info_decrypt_from_der: both compare (issuer, serial) as byte strings, length
+   and content. *)
+Fixpoint octets_eqb (a b : list N) : bool :=
+  match a, b with
+  | [], [] => true
+  | x :: a', y :: b' => (x =? y) && octets_eqb a' b'
+  | _, _ => false
+  end.
+
+(* an element of the searched list: None = it does not parse (the loop returns -1 there) *)
+Definition keyed (A : Type) := option (list N * list N * A)%type.   (* issuer, serial, payload *)
+Inductive found (A : Type) := FErr | FNone | FHit (a : A).
+Arguments FErr {A}. Arguments FNone {A}. Arguments FHit {A} a.
+
+Fixpoint find_by_issuer_serial {A} (l : list (keyed A)) (issuer serial : list N) : found A :=
+  match l with
+  | [] => FNone
+  | None :: _ => FErr
+  | Some (i, s, a) :: r =>
+    if octets_eqb i issuer && octets_eqb s serial then FHit a else find_by_issuer_serial r issuer serial
+  end.
